@@ -26,7 +26,7 @@ pub struct Dims {
     pub missing: u8,  // bit 0 credential, 1 signature, 2 signed headers, 3 date; bit 4: what is missing is present in the OTHER carrier's spelling (all four when nothing is missing) -- a decoy that must not be consulted
     pub reqs: u8,     // 0 ok, 1 host unsigned, 2 always-header unsigned, 3 if-header unsigned, 4 prefix header unsigned
     pub date: u8,     // 0 in window, 1 malformed, 2 expired, 3 future, 4 a well-formed in-window timestamp followed by extra characters, 5 ... cut short by one character, 6 expired by half a second (fractional timestamp), 7 in the future by half a second, 8 inside the window by half a second (fractional), 9 exactly on the future edge with a nine-digit fraction (8 and 9 are no defects)
-    pub cred: u8,     // 0 ok, 1 four parts, 2 six parts, 3 region, 4 service, 5 terminator, 6 date, 7 all wrong
+    pub cred: u8,     // 0 ok, 1 four parts, 2 six parts, 3 region, 4 service, 5 terminator, 6 date, 7 all wrong, 8 date with a leading zero, 9 date with a plus sign, 10 date with a blank for a zero pad
     pub provider: u8, // 0 key, 1 ExpiredToken, 2 InvalidClientTokenId, 3 IO, 4 MalformedQueryString, 5 foreign
     pub sig: u8,      // 0 ok, 1 wrong (64 hex), 2 too long (65), 3 empty, 4 truncated (63), 5 valid under the all-zero key, 6 valid under the all-0xFF key
     #[serde(default)]
@@ -154,6 +154,21 @@ pub fn materialize(d: &Dims) -> Option<Case> {
         4 => format!("{}/us-east-1/other/aws4_request", d8),
         5 => format!("{}/us-east-1/service/aws4", d8),
         6 => "20150101/us-east-1/service/aws4_request".to_string(),
+        // look-alikes of the right date: numerically equal (a leading zero, a plus sign), and the same eight
+        // characters with a zero pad dropped and a blank in its place (what lenient date parsers read as the same date)
+        8 => format!("0{}/us-east-1/service/aws4_request", d8),
+        9 => format!("+{}/us-east-1/service/aws4_request", d8),
+        10 => {
+            let b = d8.as_bytes();
+            let alike = if b[4] == b'0' {
+                format!("{}{} {}", &d8[..4], &d8[5..6], &d8[6..])
+            } else if b[6] == b'0' {
+                format!("{} {}", &d8[..6], &d8[7..])
+            } else {
+                format!("{} {}", &d8[..4], &d8[4..])
+            };
+            format!("{}/us-east-1/service/aws4_request", alike)
+        }
         _ => "20150101/x/y/z".to_string(),
     };
     plan.key = refmodel::hmac::chain(e2e::SECRET.as_bytes(), &d8, b"us-east-1", b"service").ksigning;
@@ -508,8 +523,8 @@ fn dims_space(thorough: bool, query_carrier: bool) -> Vec<Vec<u8>> {
             if query_carrier { vec![0] } else { full(2) },
             full(32),
             full(5),
-            full(8),
-            full(8),
+            full(10),
+            full(11),
             full(6),
             full(5),
             full(2),
@@ -524,15 +539,17 @@ fn dims_space(thorough: bool, query_carrier: bool) -> Vec<Vec<u8>> {
             vec![0, 1, 2, 4, 8, 15, 16, 24, 31],
             vec![0, 1, 2, 4],
             vec![0, 1, 2, 3, 4, 6, 7],
-            vec![0, 1, 2, 3, 6, 7],
+            vec![0, 1, 2, 3, 6, 7, 8, 10],
             vec![0, 1, 5],
             vec![0, 1, 2],
-            full(2),
+            // the session token (no rule depends on it) alternates with the index instead of doubling the sub-lattice
+            vec![0],
         ]
     }
 }
 
 fn dims_at(space: &[Vec<u8>], query_carrier: bool, mut i: u64) -> Dims {
+    let i0 = i;
     let mut v = [0u8; 12];
     for (k, dim) in space.iter().enumerate() {
         v[k] = dim[(i % dim.len() as u64) as usize];
@@ -551,7 +568,7 @@ fn dims_at(space: &[Vec<u8>], query_carrier: bool, mut i: u64) -> Dims {
         cred: v[8],
         provider: v[9],
         sig: v[10],
-        token: v[11],
+        token: if space[11].len() == 1 { ((i0 / 5) % 2) as u8 } else { v[11] },
         form: 0,
     }
 }
@@ -693,7 +710,7 @@ pub fn run(ctx: &Ctx) -> Report {
     Report {
         stats: st,
         rule: format!(
-            "precedence automaton over the 14 documented stages; full product of defect vectors per carrier ({} header-carrier, {} query-carrier vectors): path {{ok, %zz, trailing %, above root, '*'}} x query {{ok, %zz, trailing %}} x carrier {{one, none, both, both with a non-SigV4 second carrier}} x algorithm x parameter syntax x missing ⊆ {{credential, signature, signed headers, date}}, each also with what is missing (or all four) present in the other carrier's spelling as a decoy (X-Amz-* query parameters next to header authentication, X-Amz-Date / Date headers next to query authentication) x requirements {{ok, host, always, conditional, prefix unsigned}} x date {{in window, malformed, expired, future, well-formed + trailing characters, well-formed cut short, expired / future by half a second}} x credential {{ok, 4 parts, 6 parts, region, service, terminator, date, all wrong}} x provider {{key, ExpiredToken, InvalidClientTokenId, IO, MalformedQueryString, foreign}} x signature {{ok, wrong, too long, empty, truncated}} x session token {{absent, present}}{}; every vector with at most two defects is validated right after the fully valid request on the same thread; every vector is materialised as a concrete request (correctly signed wherever a signature is still meaningful; 1 in 16 cross-checked against the reference verifier) and replayed on sigv4_validate_request: kind, code, status, downcast to SignatureError, status class and provider consultation compared with the automaton's terminal; plus 5 defective paths x 4 form content types (unknown / empty / no / UTF-8 charset) x 3 bodies (fine, undecodable, bad escape) with folding on, which are refused for their path; plus the kind->(code,status) table for every variant directly and through From<Box<dyn Error>>. states = (stage, vector prefix) pairs of the model; transitions = stage steps",
+            "precedence automaton over the 14 documented stages; full product of defect vectors per carrier ({} header-carrier, {} query-carrier vectors): path {{ok, %zz, trailing %, above root, '*'}} x query {{ok, %zz, trailing %}} x carrier {{one, none, both, both with a non-SigV4 second carrier}} x algorithm x parameter syntax x missing ⊆ {{credential, signature, signed headers, date}}, each also with what is missing (or all four) present in the other carrier's spelling as a decoy (X-Amz-* query parameters next to header authentication, X-Amz-Date / Date headers next to query authentication) x requirements {{ok, host, always, conditional, prefix unsigned}} x date {{in window, malformed, expired, future, well-formed + trailing characters, well-formed cut short, expired / future by half a second}} x credential {{ok, 4 parts, 6 parts, region, service, terminator, date, all wrong, date with a leading zero / a plus sign / a blank in place of a zero pad}} x provider {{key, ExpiredToken, InvalidClientTokenId, IO, MalformedQueryString, foreign}} x signature {{ok, wrong, too long, empty, truncated}} x session token {{absent, present}}{}; every vector with at most two defects is validated right after the fully valid request on the same thread; every vector is materialised as a concrete request (correctly signed wherever a signature is still meaningful; 1 in 16 cross-checked against the reference verifier) and replayed on sigv4_validate_request: kind, code, status, downcast to SignatureError, status class and provider consultation compared with the automaton's terminal; plus 5 defective paths x 4 form content types (unknown / empty / no / UTF-8 charset) x 3 bodies (fine, undecodable, bad escape) with folding on, which are refused for their path; plus the kind->(code,status) table for every variant directly and through From<Box<dyn Error>>. states = (stage, vector prefix) pairs of the model; transitions = stage steps",
             sizes[0], sizes[1], if thorough { "" } else { " (quick: a sub-lattice with at least one defect variant per stage and missing ∈ {none, each singleton, all})" }
         ),
         bounds: json!({"header_vectors": sizes[0], "query_vectors": sizes[1]}),
